@@ -140,13 +140,14 @@ def proof_audit(prop_id, build_rc, build_out, thorough=False):
     if build_rc != 0:
         rel = os.path.relpath(path, LEAN)
         own = False
-        for m in re.finditer(r"([\w/\.]+\.lean):(\d+):(\d+): error", build_out):
-            if m.group(1).endswith(rel):
+        for m in re.finditer(r"error: ([\w/\.]+\.lean):(\d+):(\d+):|([\w/\.]+\.lean):(\d+):(\d+): error", build_out):
+            f_, l_ = (m.group(1), m.group(2)) if m.group(1) else (m.group(4), m.group(5))
+            if f_.endswith(rel):
                 own = True
-                bad_lines[int(m.group(2))] = True
+                bad_lines[int(l_)] = True
         if not own:
             # a dependency (model, lemma file, generated table) no longer compiles
-            first = re.search(r"([\w/\.]+\.lean:\d+:\d+: error[^\n]*)", build_out)
+            first = re.search(r"(error: [\w/\.]+\.lean:\d+:\d+:[^\n]*|[\w/\.]+\.lean:\d+:\d+: error[^\n]*)", build_out)
             why = first.group(1) if first else "lake build failed"
             res["failed"] = [(nm, "dependency does not compile: " + why) for nm, _, _ in spans]
             return res
